@@ -38,6 +38,10 @@ def main() -> None:
     except (ValueError, OSError):
         pass
     os.chdir(job["dir"])
+    # the parent asks for the Python stack (SIGUSR1) before it kills a worker that exceeded its time limit
+    import faulthandler
+    import signal
+    faulthandler.register(signal.SIGUSR1, file=sys.stderr, all_threads=False, chain=False)
     import instrument
     import mypy.main
     import mypy.server.update  # noqa: F401
